@@ -266,6 +266,10 @@ def cmp(op, a, b):
             return lift(same if op == "is" else not same)
         # a value that is not a constant compared with None: unknown
         return E("cmp", op, a, b)
+    if op in ("in", "not in"):
+        if a.is_const and b.is_const and isinstance(a.value, str) and isinstance(b.value, str):
+            return lift((a.value in b.value) == (op == "in"))
+        return E("cmp", op, a, b)
     if a.is_const and b.is_const:
         av, bv = a.value, b.value
         try:
@@ -467,6 +471,11 @@ def rebuild(op, args):
         return eor(*args)
     if op == "cond":
         return cond(*args)
+    if op == "bool" and len(args) == 1 and isinstance(args[0], E):
+        if args[0].is_const:
+            return lift(truthy(args[0]))
+        if args[0].op in ("cmp", "not", "and", "or", "bool"):
+            return args[0]
     return E(op, *args)
 
 
